@@ -284,7 +284,7 @@ func run(pr program) (out runOut) {
 	go func() { wg.Wait(); close(done) }()
 	select {
 	case <-done:
-	case <-time.After(60 * time.Second):
+	case <-harness.After(60 * time.Second):
 		buf := make([]byte, 2<<20)
 		out.hang = string(buf[:runtime.Stack(buf, true)])
 	}
